@@ -1057,7 +1057,7 @@ def shards(tier):
     if tier == "quick":
         out = [{"kind": "hyp", "i": i, "n": 120} for i in range(16)]
     else:
-        out = [{"kind": "hyp", "i": i, "n": 450} for i in range(64)]
+        out = [{"kind": "hyp", "i": i, "n": 350} for i in range(64)]
     for p in PROTS:
         out.append({"kind": "enum", "prot": p})
     return out
